@@ -1661,6 +1661,20 @@ def m_getlogger(E, a, kw):
     return VOpaque('logger', z3.Int('logger'))
 
 
+@method('logger', 'isEnabledFor')
+def m_logger_enabled(E, a, kw):
+    # whether a level is enabled is configuration of the run: either answer is possible
+    return VBool(E.fresh_bool('log_level_enabled'))
+
+
+def _logger_noop(E, a, kw):
+    return NONE
+
+
+for _lvl in ('debug', 'info', 'warning', 'error', 'critical', 'exception', 'log', 'setLevel'):
+    method('logger', _lvl)(_logger_noop)
+
+
 @model('cardutil.vendor.hexdump.hexdump')
 def m_hexdump(E, a, kw):
     return NONE
